@@ -3,6 +3,8 @@ package types
 import (
 	"context"
 	"math"
+	"strconv"
+	"strings"
 	"time"
 )
 
@@ -26,7 +28,7 @@ func ParseTime(ctx context.Context, src string, precision int) (DateTime, bool) 
 		"15:04:05Z07:00",
 	} {
 		value, err := time.Parse(format, src)
-		if err == nil {
+		if err == nil && offsetInRange(src) {
 			return NewTimeTZ(adjustPrecision(offsetOnlyTimeFor(value), precision)), true
 		}
 	}
@@ -45,7 +47,7 @@ func ParseTime(ctx context.Context, src string, precision int) (DateTime, bool) 
 		"2006-01-02 15:04:05Z07:00",
 	} {
 		value, err := time.Parse(format, src)
-		if err == nil {
+		if err == nil && offsetInRange(src) {
 			return NewTimestampTZ(ctx, adjustPrecision(value, precision)), true
 		}
 	}
@@ -63,6 +65,31 @@ func ParseTime(ctx context.Context, src string, precision int) (DateTime, bool) 
 
 	// Not found.
 	return nil, false
+}
+
+// offsetInRange reports whether the time zone displacement at the end of src,
+// which [time.Parse] has accepted, is one a time zone can have. [time.Parse]
+// lets hours up to 24 and minutes up to 60 through ("12:34:56+05:60" becomes
+// +06:00, "-24:60" becomes -25:00, which no parser reads back); PostgreSQL
+// rejects displacements beyond 15:59.
+func offsetInRange(src string) bool {
+	const maxHour, maxMinute = 15, 59
+
+	pos := strings.LastIndexAny(src, "+-")
+	if pos < 0 || !strings.Contains(src[:pos], ":") {
+		// No numeric displacement (Z); a "-" before the time belongs to the date.
+		return true
+	}
+
+	hour, minute, _ := strings.Cut(src[pos+1:], ":")
+	h, errH := strconv.Atoi(hour)
+	m := 0
+	var errM error
+	if minute != "" {
+		m, errM = strconv.Atoi(minute)
+	}
+
+	return errH == nil && errM == nil && h <= maxHour && m <= maxMinute
 }
 
 func adjustPrecision(value time.Time, precision int) time.Time {
